@@ -58,6 +58,34 @@ func Harness_C08_verify_string() {
 	vm.Cover("C08.rejecting_path_exists", err != nil)
 }
 
+// Harness_C08_verify_string_history: verification has no memory. After any first verification (accepted or not),
+// a second one with the same or another signature text over a *different* message is accepted only if the
+// primitive was evaluated on exactly that second message and returned true.
+func Harness_C08_verify_string_history() {
+	format := c08Formats[vm.Choice("format", 2)]
+	isRegular := vm.Bool("isRegular")
+	recipient, kind := c08Recipient(format)
+	vm.Assume(kind == 0)
+	sig1 := vm.String("signature", 0, 2, "A=!")
+	first := VerifyString("embedded-header-json", isRegular, format, recipient, sig1)
+	seen := len(vm.VerifyEvents)
+	sig2 := sig1
+	if vm.Bool("otherSignature") {
+		sig2 = vm.String("signature2", 0, 2, "A=!")
+	}
+	src2 := "forged-header-json"
+	err := VerifyString(src2, isRegular, format, recipient, sig2)
+	accepted := false
+	for i, ev := range vm.VerifyEvents {
+		if i >= seen && ev.Result && ev.Message == src2 {
+			accepted = true
+		}
+	}
+	vm.Assert("C08.second_nil_implies_primitive_accepted_second_message", err != nil || accepted)
+	vm.Cover("C08.history_first_accepted", first == nil)
+	vm.Cover("C08.history_second_rejected", err != nil)
+}
+
 // Harness_C08_verify_header: VerifyHeader == nil only if both records were present, the embedded
 // header text was accepted by the primitive, and *hdr was replaced entirely by the embedded header.
 func Harness_C08_verify_header() {
